@@ -189,7 +189,10 @@ fn kiki_token_view(t: &kiki::data::cst::Token) -> (TokKind, usize, String) {
 }
 
 fn hook_tokenize(text: &str) -> Result<Result<Vec<kiki::data::cst::Token>, Outcome>, String> {
-    catch(|| kiki::verif_hooks::tokenize(text)).map(|r| r.map_err(|e| Outcome::from_result(Err(e))))
+    note_current_input(Some(text));
+    let r = catch(|| kiki::verif_hooks::tokenize(text)).map(|r| r.map_err(|e| Outcome::from_result(Err(e))));
+    note_current_input(None);
+    r
 }
 
 pub fn c08_judge(text: &str) -> Result<(), Failure> {
@@ -345,7 +348,10 @@ pub fn c09_judge(text: &str) -> Result<(), Failure> {
     // the parser driven directly (public kiki::data::cst::parse)
     if let Ok(Ok(kt)) = hook_tokenize(text) {
         if kt.len() == toks.len() {
-            match catch(|| kiki::data::cst::parse(kt.clone())) {
+            note_current_input(Some(text));
+            let direct = catch(|| kiki::data::cst::parse(kt.clone()));
+            note_current_input(None);
+            match direct {
                 Err(p) => return fail("parser-panic", format!("cst::parse panicked: {p}")),
                 Ok(Ok(_)) => {
                     if verdict != SynVerdict::Accept {
